@@ -53,7 +53,9 @@ Inductive cev :=
 | CCb (r : nat) (status : Z) (src : csrc) (* connect_cb(r, status); where the status came from *)
 | CLost (r : nat)                         (* connect_req overwritten while r was pending *)
 | CClosed                                 (* close_cb *)
-| CReg (n : nat).                         (* loop->active_reqs.count observed after an operation *)
+| CReg (n : nat)
+| CUsable (b : bool).                     (* at a connect callback with status 0: the stream has been opened
+                                             (uv_is_readable / uv_is_writable), unless the script shut it down *)                         (* loop->active_reqs.count observed after an operation *)
 
 Inductive cop :=
 | CTcp                                        (* uv_tcp_connect, valid AF_INET address *)
@@ -83,9 +85,10 @@ Record cst := mkCs {
                              notes/C07_fix_pipe_connect_ealready.diff *)
   creg : nat;             (* loop->active_reqs.count as far as this handle's connect requests go:
                              +1 at every uv__req_init, -1 at every uv__req_unregister *)
-  cwr : bool              (* UV_HANDLE_WRITABLE as far as the scripts rely on it: set where uv__stream_open /
-                             maybe_new_socket set it, cleared by uv_shutdown and (conservatively, a read error
-                             clears the flag) by uv_read_start *)
+  cwr : option bool       (* UV_HANDLE_READABLE | UV_HANDLE_WRITABLE as far as the scripts rely on them:
+                             Some false = not opened yet, Some true = set by uv__stream_open / maybe_new_socket,
+                             None = the script called uv_shutdown or uv_read_start (WRITABLE is cleared by
+                             the former, both by a read error): no further uv_write / uv_shutdown *)
 }.
 
 Definition next_z (l : list Z) : Z * list Z := match l with [] => (0, []) | a :: r => (a, r) end.
@@ -100,11 +103,15 @@ Fixpoint connect_loop (l : list Z) : Z * list Z :=
 
 Definition pending (s : cstream) : bool := match c_req s with Some _ => true | None => false end.
 
+(* uv__stream_open(READABLE | WRITABLE) / maybe_new_socket's flags *)
+Definition wr_on (w : option bool) : option bool := match w with Some _ => Some true | None => None end.
+Definition wr_is (w : option bool) : bool := match w with Some true => true | _ => false end.
+
 Definition upd_s (x : cst) (s : cstream) : cst := mkCs s (co x) (nreq x) (ccbn x) (cchain x) (cpfix x) (creg x) (cwr x).
 
 Definition tcp_connect (x : cst) : cst * list cev :=
   let s := cs x in let r := nreq x in
-  let out (s : cstream) (o : corc) (wr : bool) :=
+  let out (s : cstream) (o : corc) (wr : option bool) :=
       (mkCs (mkC (c_tcp s) (c_fd s) (Some r) (c_delayed s) true
                  (if c_delayed s =? 0 then c_fed s else true) (c_closing s) (c_closed s))
             o (S r) (ccbn x) (cchain x) (cpfix x) (S (creg x)) wr, [CRet r 0]) in
@@ -119,10 +126,10 @@ Definition tcp_connect (x : cst) : cst * list cev :=
       let s1 := mkC (c_tcp s) true (c_req s) (c_delayed s) (c_pollout s) (c_fed s) (c_closing s) (c_closed s) in
       let (a, cn') := connect_loop (o_conn (co x)) in
       let o' := mkO so' cn' (o_so (co x)) (o_ready (co x)) in
-      if (a =? 0) || (a =? UV_EINPROGRESS) then out s1 o' true
+      if (a =? 0) || (a =? UV_EINPROGRESS) then out s1 o' (wr_on (cwr x))
       else if a =? UV_ECONNREFUSED then
-        out (mkC (c_tcp s1) true (c_req s1) UV_ECONNREFUSED (c_pollout s1) (c_fed s1) (c_closing s1) (c_closed s1)) o' true
-      else (mkCs s1 o' (S r) (ccbn x) (cchain x) (cpfix x) (creg x) true, [CRet r a])
+        out (mkC (c_tcp s1) true (c_req s1) UV_ECONNREFUSED (c_pollout s1) (c_fed s1) (c_closing s1) (c_closed s1)) o' (wr_on (cwr x))
+      else (mkCs s1 o' (S r) (ccbn x) (cchain x) (cpfix x) (creg x) (wr_on (cwr x)), [CRet r a])
   end.
 
 Definition bind_busy (busy : bool) (x : cst) : cst * list cev :=
@@ -159,9 +166,10 @@ Definition pipe_connect2_body (x : cst) (flags : Z) (namelen : nat) (nul : bool)
     let o' := mkO so' cn' (o_so (co x)) (o_ready (co x)) in
     if (a =? 0) || (a =? UV_EINPROGRESS) then
       let s2 := mkC (c_tcp s1) true (c_req s1) (c_delayed s1) true (c_fed s1) (c_closing s1) (c_closed s1) in
-      (* uv__stream_open (READABLE | WRITABLE) only if (new_sock) *)
+      (* since /repo ff67af1: uv__stream_open (READABLE | WRITABLE) if (new_sock || neither flag is set yet);
+         before it only if (new_sock), so a retry after a failed attempt stayed unreadable and unwritable *)
       let (s', e) := pipe_out s2 r 0 in
-      (mkCs s' o' (nreq x) (ccbn x) (cchain x) (cpfix x) (S (creg x)) (if new_sock then true else cwr x), e, None)
+      (mkCs s' o' (nreq x) (ccbn x) (cchain x) (cpfix x) (S (creg x)) (wr_on (cwr x)), e, None)
     else
       let (s', e) := pipe_out s1 r a in (mkCs s' o' (nreq x) (ccbn x) (cchain x) (cpfix x) (S (creg x)) (cwr x), e, None).
 
@@ -208,10 +216,10 @@ Definition aux_op (x : cst) (o : cop) : cst * list cev :=
   if c_closing s || negb (c_fd s) || pending s then (x, []) else
   let fed := mkC (c_tcp s) (c_fd s) (c_req s) (c_delayed s) (c_pollout s) true (c_closing s) (c_closed s) in
   match o with
-  | CWrite => if cwr x then (upd_s x fed, []) else (x, [])       (* not writable: UV_EPIPE, nothing happens *)
-  | CShut => if cwr x then (mkCs fed (co x) (nreq x) (ccbn x) (cchain x) (cpfix x) (creg x) false, [])
-             else (x, [])                                         (* UV_ENOTCONN *)
-  | CRead => (mkCs s (co x) (nreq x) (ccbn x) (cchain x) (cpfix x) (creg x) false, [])
+  | CWrite => if wr_is (cwr x) then (upd_s x fed, []) else (x, [])   (* not writable: UV_EPIPE, nothing happens *)
+  | CShut => if wr_is (cwr x) then (mkCs fed (co x) (nreq x) (ccbn x) (cchain x) (cpfix x) (creg x) None, [])
+             else (x, [])                                             (* UV_ENOTCONN *)
+  | CRead => (mkCs s (co x) (nreq x) (ccbn x) (cchain x) (cpfix x) (creg x) None, [])
   | _ => (x, [])
   end.
 
@@ -224,8 +232,8 @@ Definition cexec_simple (x : cst) (o : cop) : cst * list cev :=
     if c_closing (cs x) then (x, []) else
     match o with
     | CTcp => if c_tcp (cs x) then tcp_connect x else (x, [])
-    | CBindBusy => if c_tcp (cs x) then bind_busy true x else (x, [])
-    | CBind => if c_tcp (cs x) then bind_busy false x else (x, [])
+    | CBindBusy => if c_tcp (cs x) && negb (pending (cs x)) then bind_busy true x else (x, [])
+    | CBind => if c_tcp (cs x) && negb (pending (cs x)) then bind_busy false x else (x, [])
     | CPipe n => if c_tcp (cs x) then (x, []) else pipe_connect x n
     | CPipe2 f n z => if c_tcp (cs x) then (x, []) else pipe_connect2 x f n z
     | _ => (x, [])
@@ -269,7 +277,8 @@ Definition stream_connect (x : cst) (beh : nat -> list cop) : cst * list cev :=
       let s2 := mkC (c_tcp s1) (c_fd s1) None (c_delayed s1) false (c_fed s1) (c_closing s1) (c_closed s1) in
       let (x1, e1) := run_cb (mkCs s2 o' (nreq x) (ccbn x) [] (cpfix x) (pred (creg x)) (cwr x)) beh in
       let (x2, e2) := reject (cchain x) UV_EALREADY SrcRejected x1 beh in
-      (x2, CCb r error src :: e1 ++ e2)
+      (x2, CCb r error src ::
+           (if error =? 0 then [CUsable (match cwr x with Some false => false | _ => true end)] else []) ++ e1 ++ e2)
   end.
 
 (* uv__stream_io: a pending connect takes the event; otherwise POLLOUT with an empty
@@ -332,7 +341,7 @@ Fixpoint crun (x : cst) (os : list cop) (beh : nat -> list cop) : cst * list cev
   end.
 
 Definition cinit (pfix : bool) (tcp : bool) (o : corc) : cst :=
-  mkCs (mkC tcp false None 0 false false false false) o 0 0 [] pfix 0 false.
+  mkCs (mkC tcp false None 0 false false false false) o 0 0 [] pfix 0 (Some false).
 
 (* ------------------------------------------------------------------ *)
 (* uv__check_before_write and its two callers *)
